@@ -91,7 +91,22 @@ def impl(c):
     fq = lambda b: [Fraction(b).numerator, Fraction(b).denominator]
     ans = [fq(eng.beat_at(t, EventTag(tag))) for t, tag in ps]
     ans2 = [fq(eng2.beat_at(t, EventTag(tag))) for t, tag in ps]
-    return {"probes": [[t.hex(), tag] for t, tag in ps], "beats": ans, "beats_redundant": ans2}
+    # beat -> time -> beat, under the default tag, for every probe beat
+    from simfile.timing import Beat
+    rng = random.Random(c["extra"] or 7)
+    bs = GT.probe_beats(c["td"], rng if c["extra"] else None)
+    rt = [[b, fq(eng.beat_at(eng.time_at(Beat(b, 48))))] for b in bs]
+    return {"probes": [[t.hex(), tag] for t, tag in ps], "beats": ans, "beats_redundant": ans2, "roundtrip": rt}
+
+
+def warp_union(td):
+    segs = []
+    for b, v in sorted((Fraction(b, 48), GT.round_tick(Fraction(Decimal(v)))) for b, v in td["warps"]):
+        if segs and b <= segs[-1][1]:
+            segs[-1][1] = max(segs[-1][1], b + v)
+        else:
+            segs.append([b, b + v])
+    return [(a, e) for a, e in segs if e > a]
 
 
 def requests(c):
@@ -173,6 +188,34 @@ def oracle(c, o):
             for (a0, a1) in ivs:
                 if a0 + Fraction(1, 10 ** 6) < ft < a1 - Fraction(1, 10 ** 6) and b != pb:
                     return "time %r lies strictly inside the pause on beat %s but beat_at gives %s" % (t, pb, b)
+    segs = warp_union(td)
+    pause_beats = sorted(pauses)
+    if dy:
+        # a tick-aligned beat that no warp skips over comes back from its own time
+        for b48, back in o.get("roundtrip", []):
+            b = Fraction(b48, 48)
+            if not any(a <= b < e for a, e in segs) and Fraction(*back) != b:
+                return "beat %s -> time_at -> beat_at gives %s" % (b, Fraction(*back))
+        # at the time at which a whole warp segment elapses: WARP tag -> its start, default -> the furthest beat reached at that time
+        for a, e in segs:
+            T = GT.spec_time(td, a, 0)
+            far = min([pb for pb in pause_beats if a <= pb <= e] + [e])
+            for (t, tag), b in zip(ps, beats):
+                if Fraction(t) == T:
+                    if tag == 0 and b != a:
+                        return "beat_at(%r, WARP) = %s at the time the warp segment [%s, %s) elapses; it starts at %s" % (t, b, a, e, a)
+                    if tag == 5 and b != far:
+                        return "beat_at(%r) = %s at the time the warp segment [%s, %s) elapses; the furthest beat reached at that time is %s" % (t, b, a, e, far)
+    # the answer's own time lies within half a tick's duration of the asked time (widened by any pause on that beat)
+    tol = Fraction(1, 10 ** 9) if dy else Fraction(1, 10 ** 6)
+    for (t, tag), b in zip(ps, beats):
+        if tag != 5:
+            continue
+        ft = Fraction(t)
+        lo, hi = GT.spec_time(td, b, 0), GT.spec_time(td, b, 6)
+        h = max(Fraction(60) / GT.spec_bpm(td, x) for x in (b, b - Fraction(1, 48), b + Fraction(1, 48))) / 96
+        if ft < lo - h - tol or ft > hi + h + tol:
+            return "beat_at(%r) = %s, whose own time [%s, %s] is more than half a tick (%s s) away" % (t, b, float(lo), float(hi), float(h))
     # redundant rows
     if dy:
         for (t, tag), b, b2 in zip(ps, o["beats"], o["beats_redundant"]):
